@@ -9,6 +9,7 @@ import (
 	"go.lsp.dev/protocol"
 
 	"github.com/juev/hledger-lsp/internal/include"
+	"github.com/juev/hledger-lsp/internal/verifhook"
 )
 
 type featureSettings struct {
@@ -138,6 +139,8 @@ func (s *Server) getSettings() serverSettings {
 }
 
 func (s *Server) refreshConfiguration(ctx context.Context) {
+	verifhook.Point("config.start")
+	defer verifhook.Point("config.done")
 	if s.client == nil || !s.supportsConfiguration {
 		return
 	}
